@@ -112,6 +112,7 @@ type ctx struct {
 	useGraft bool
 	notes    []string
 	log      *os.File
+	extra    map[string]any
 }
 
 func die(code int, format string, a ...any) {
@@ -396,6 +397,9 @@ func check(spec propSpec, tier string, seed int64, replayFile string) int {
 	}
 	if replayFile != "" {
 		cfgNames = []string{replayConfig(replayFile)}
+		if spec.Special == "c06" {
+			cfgNames = all4 // a divergence is replayed in every configuration and the per-call digests are compared
+		}
 	}
 	bset := map[string]bool{}
 	var bnames []string
@@ -412,6 +416,41 @@ func check(spec propSpec, tier string, seed int64, replayFile string) int {
 	}
 	var outs []procOut
 	switch {
+	case replayFile != "" && spec.Special == "c06":
+		abs, _ := filepath.Abs(replayFile)
+		details := map[string][]string{}
+		for _, cn := range cfgNames {
+			po := c.runConfig(configs[cn], 1, []string{"-replay", abs}, nil, "")
+			outs = append(outs, po)
+			if b, err := os.ReadFile(filepath.Join(c.scratch, "out", cn+".stderr")); err == nil {
+				for _, l := range strings.Split(string(b), "\n") {
+					if strings.HasPrefix(l, "DETAIL ") {
+						details[cn] = append(details[cn], l)
+					}
+				}
+			}
+		}
+		ref := details[cfgNames[0]]
+		for _, cn := range cfgNames[1:] {
+			d := details[cn]
+			for i := 0; i < len(ref) || i < len(d); i++ {
+				a, b := "(no call)", "(no call)"
+				if i < len(ref) {
+					a = ref[i]
+				}
+				if i < len(d) {
+					b = d[i]
+				}
+				if a != b {
+					fmt.Printf("replay: first diverging call between %s and %s:\n  %s: %s\n  %s: %s\n", cfgNames[0], cn, cfgNames[0], a, cn, b)
+					if outs[0].res != nil {
+						outs[0].res.Violations = append(outs[0].res.Violations, violation{Sig: "backend-divergence/replayed", What: fmt.Sprintf("%s vs %s: %s | %s", cfgNames[0], cn, a, b), Config: cn})
+						outs[0].res.NViolations++
+					}
+					break
+				}
+			}
+		}
 	case replayFile != "":
 		abs, _ := filepath.Abs(replayFile)
 		outs = append(outs, c.runConfig(configs[cfgNames[0]], 1, []string{"-replay", abs}, nil, ""))
@@ -437,6 +476,9 @@ func check(spec propSpec, tier string, seed int64, replayFile string) int {
 			}(i, cn)
 		}
 		wg.Wait()
+	}
+	if spec.Special == "c06" && replayFile == "" && (tier == "thorough" || os.Getenv("VERIF_C06_REACH") != "") {
+		c.extra = map[string]any{"reach_meter": reachMeter(c)}
 	}
 	return conclude(c, outs, t0, replayFile != "")
 }
@@ -608,6 +650,9 @@ func conclude(c *ctx, outs []procOut, t0 time.Time, isReplay bool) int {
 	cov["notes"] = c.notes
 	cov["inconclusive"] = inconcl
 	cov["replays"] = replayPaths
+	for k, v := range c.extra {
+		cov[k] = v
+	}
 	if b, err := os.ReadFile(filepath.Join(c.scratch, "out", "instr.json")); err == nil {
 		var v any
 		if json.Unmarshal(b, &v) == nil {
